@@ -54,6 +54,22 @@ def run(chk):
             p0 = max(0, v + r.choice([0, 0, 0, 1, -1]))
             buf = bytearray(r.choice(b" .") for _ in range(p0 + len(strs[0]) + r.below(4)))
             buf[p0:p0 + len(strs[0])] = strs[0]
+        if i % 10 == 5:
+            # aimed at the selection of the strings of a set: the identifier of string 0 is a proper prefix of string 1's, sets naming one of
+            # them (or the wildcard form of both), on data where exactly one of the two occurs
+            st = r.choice([[0], [1], [0, 2], [1, 2], [0, 1], [2]])
+            q = r.choice(["any", "all", "none", ("num", ("lit", 1)), ("num", ("lit", 2))])
+            t = r.choice([("of", q, st), ("forof", q, st, ("cur",)), ("ofin", q, st, ("lit", 0), ("lit", 40)), ("forof", q, st, ("curat", ("lit", 1)))])
+            if r.chance(1, 3):
+                t = ("not", t)
+            trees, names = [t], ["r0"]
+            strs = [bytes(r.choice(b"abcxyz019") for _ in range(2)) for _ in range(condgen.NSTR)]
+            decl = " ".join('$%s = "%s"' % (condgen.sid(j), strs[j].decode()) for j in range(condgen.NSTR))
+            src = "rule r0 { strings: %s condition: %s }\n" % (decl, condgen.Printer(names).raw(t))
+            present = r.choice([[0], [1], [2], [0, 1], [1, 2], []])
+            buf = bytearray(b".")
+            for j in present:
+                buf += strs[j] + b"."
         if i % 10 == 7:
             # aimed at the required-strings analysis (a rule none of whose strings matched is not evaluated when the compiler decided
             # that it needs a string): quantifiers that are not constants and evaluate to 0 at scan time, on data without the strings
